@@ -87,8 +87,21 @@ uint32_t cop_serialize_value(const NanoValue *val, uint8_t *buf, uint32_t buf_si
     return pos;
 }
 
+/* Arrays nest; the decoder recurses once per level.  A peer must not be able to
+ * exhaust the C stack with a deeply nested value, so nesting is limited. */
+#define COP_MAX_NESTING 64
+
+static uint32_t cop_deserialize_depth(const uint8_t *buf, uint32_t buf_size,
+                                      NanoValue *out, VmHeap *heap, int depth);
+
 uint32_t cop_deserialize_value(const uint8_t *buf, uint32_t buf_size,
                                NanoValue *out, VmHeap *heap) {
+    return cop_deserialize_depth(buf, buf_size, out, heap, 0);
+}
+
+static uint32_t cop_deserialize_depth(const uint8_t *buf, uint32_t buf_size,
+                                      NanoValue *out, VmHeap *heap, int depth) {
+    if (depth > COP_MAX_NESTING) return 0;
     if (buf_size < 1) return 0;
     uint8_t tag = buf[0];
     uint32_t pos = 1;
@@ -150,8 +163,8 @@ uint32_t cop_deserialize_value(const uint8_t *buf, uint32_t buf_size,
         VmArray *arr = vm_array_new(heap, etype, count > 0 ? count : 4);
         for (uint32_t i = 0; i < count; i++) {
             NanoValue elem;
-            uint32_t n = cop_deserialize_value(buf + pos, buf_size - pos,
-                                                &elem, heap);
+            uint32_t n = cop_deserialize_depth(buf + pos, buf_size - pos,
+                                                &elem, heap, depth + 1);
             if (n == 0) { *out = val_void(); return 0; }
             pos += n;
             vm_array_push(arr, elem);
